@@ -468,7 +468,11 @@ class Ctx:
         ev = dict(property_id=self.pid, tier=self.tier, seed=self.seed, level=self.level, coverage=cov,
                   assumptions=self.assumptions, wall_s=round(wall, 2), violations=len(self.violations),
                   notes=self.notes)
-        with open(os.path.join(VERIF, "evidence", "%s.json" % self.pid), "w") as f:
+        # a run against a scratch tree (VERIF_REPO, seeded-change confirmation) must not overwrite the evidence
+        # of the real tree: it goes to evidence-scratch/ (not committed)
+        evdir = "evidence" if os.path.realpath(REPO) == "/repo" else "evidence-scratch"
+        os.makedirs(os.path.join(VERIF, evdir), exist_ok=True)
+        with open(os.path.join(VERIF, evdir, "%s.json" % self.pid), "w") as f:
             json.dump(ev, f, indent=1, default=str)
         for l in lines:
             print(l)
